@@ -36,5 +36,7 @@ def make(o, name: str, k: float):
             a = o.constant(value_float=_Ref(attrs["slope_outer"], outer_name="slope_outer", name="value_float"))
             return self.Outputs(o.mul(a, inputs.X))
 
-    return lambda x: RefFunction(RefFunction.Attributes(slope_outer=AttrFloat32(float(k), "slope_outer")),
-                                 RefFunction.Inputs(x)).outputs.Y
+    # one class = one function; every call is another application (its own value of the attribute)
+    return lambda x, kk=None: RefFunction(
+        RefFunction.Attributes(slope_outer=AttrFloat32(float(k if kk is None else kk), "slope_outer")),
+        RefFunction.Inputs(x)).outputs.Y
